@@ -103,6 +103,7 @@ macro "letter_abs" : tactic => `(tactic| (
       try split at hn
       all_goals first
         | (rename_i hcnd; have hh := hns _ _ hcnd.1; simp [hh] at hcnd; done)
+        | (rename_i hcnd; have hh := hns _ _ hcnd.1.1; simp [hh] at hcnd; done)
         | (simp at hn; subst hn
            first | simp [stepSeg, ← hi, h1, h0 hidx, add_comm] | simp [stepSeg, ← hi, h1, add_comm])))))
 
